@@ -744,6 +744,8 @@ impl Writer for UperWriter {
 pub struct UperReader<B: ScopedBitRead> {
     bits: B,
     scope: Option<Scope>,
+    /// Presence flags of the transmitted extension additions the current sequence does not know
+    unknown_ext_flags: Option<Range<usize>>,
     #[cfg(feature = "descriptive-deserialize-errors")]
     scope_description: Vec<ScopeDescription>,
 }
@@ -753,6 +755,7 @@ impl<B: ScopedBitRead> From<B> for UperReader<B> {
         UperReader {
             bits,
             scope: None,
+            unknown_ext_flags: None,
             #[cfg(feature = "descriptive-deserialize-errors")]
             scope_description: Vec::new(),
         }
@@ -887,16 +890,59 @@ impl<B: ScopedBitRead> UperReader<B> {
         result
     }
 
+    /// ITU-T X.691 | ISO/IEC 8825-2:2015, chapter 19.9 (via X.680, 10.2): the open type fields of
+    /// extension additions this version does not know are skipped, so that whatever follows the
+    /// sequence is read from the right position
+    fn skip_unknown_extension_additions(&mut self) -> Result<(), Error> {
+        let flags = match &self.scope {
+            Some(Scope::ExtensibleSequence {
+                calls_until_ext_bitfield: 0,
+                number_of_ext_fields: 0,
+                ..
+            }) => {
+                // the extension bit is set although this version knows no extension addition at
+                // all: number and presence flags of the additions are still unread
+                let count = (self.bits.read_normally_small_length()? as usize).saturating_add(1);
+                let start = self.bits.pos();
+                let end = start.saturating_add(count);
+                self.bits.set_pos(end);
+                Some(start..end)
+            }
+            _ => self.unknown_ext_flags.take(),
+        };
+        for flag in flags.into_iter().flatten() {
+            if self.bits.with_read_position_at(flag, |b| b.read_bit())? {
+                let _ = self.bits.read_octetstring(None, None, false)?;
+            }
+        }
+        Ok(())
+    }
+
     #[inline]
     pub fn read_bit_field_entry(&mut self, is_opt: bool) -> Result<Option<bool>, Error> {
         #[allow(clippy::let_and_return)]
         let result = if let Some(scope) = &mut self.scope {
-            scope.read_from_field(
+            let reads_ext_header = matches!(
+                scope,
+                Scope::ExtensibleSequence {
+                    calls_until_ext_bitfield: 0,
+                    ..
+                }
+            );
+            let result = scope.read_from_field(
                 #[cfg(feature = "descriptive-deserialize-errors")]
                 &mut self.scope_description,
                 &mut self.bits,
                 is_opt,
-            )
+            );
+            if reads_ext_header {
+                if let Scope::AllBitField(range) = scope {
+                    // the sender may know more extension additions than this version: their presence
+                    // flags lie between the known ones and the current position
+                    self.unknown_ext_flags = Some(range.end..self.bits.pos());
+                }
+            }
+            result
         } else if is_opt {
             Some(self.bits.read_bit()).transpose()
         } else {
@@ -985,7 +1031,8 @@ impl<B: ScopedBitRead> Reader for UperReader<B> {
             r.bits.set_pos(range.end); // skip optional
 
             if let Some((extension_after, bit_pos)) = extension_after {
-                r.scope_pushed(
+                let outer_unknown_ext_flags = r.unknown_ext_flags.take();
+                let result = r.scope_pushed(
                     Scope::ExtensibleSequence {
                         name: C::NAME,
                         bit_pos,
@@ -993,8 +1040,14 @@ impl<B: ScopedBitRead> Reader for UperReader<B> {
                         calls_until_ext_bitfield: (extension_after + 1) as usize,
                         number_of_ext_fields: (C::FIELD_COUNT - (extension_after + 1)) as usize,
                     },
-                    f,
-                )
+                    |r| {
+                        let value = f(r)?;
+                        r.skip_unknown_extension_additions()?;
+                        Ok(value)
+                    },
+                );
+                r.unknown_ext_flags = outer_unknown_ext_flags;
+                result
             } else {
                 r.scope_pushed(Scope::OptBitField(range), f)
             }
